@@ -28,7 +28,7 @@ ASSUMPTIONS = [
     "register names keep the written case; parse_file is called with the default start_line",
 ]
 SHARD_TIMEOUT = {"quick": 600, "thorough": 3600}
-SIZES = {"quick": (20000, 208), "thorough": (500000, 5008)}
+SIZES = {"quick": (40000, 400), "thorough": (500000, 5008)}
 NSHARDS = {"quick": 16, "thorough": 64}
 
 REQUIRED = (
@@ -41,7 +41,8 @@ REQUIRED = (
     + ["disp:" + c for c in ("dec+", "dec-", "hex+", "hex-", "sym")]
     + ["lead:none", "lead:space", "lead:tab", "tail:none", "tail:ws", "tail:cmt#", "tail:cmt//", "tail:cmt-tight#", "inner-ws:in1"]
     + ["sep:" + s for s in ("tight", "after", "before", "both", "wide", "tab")]
-    + ["line:comment/#", "line:comment///", "line:label/symbol", "line:label/numeric", "line:directive", "line:label+trailing-comment"]
+    + ["line:comment/#", "line:comment///", "line:label/symbol", "line:label/numeric", "line:directive", "line:label+trailing-comment", "line:directive+trailing-comment",
+       "line:directive+trailing-comment-with-comma"]
     + ["file/line:blank-empty", "file/line:blank-whitespace", "file/line:comment/#", "file/line:comment///", "file/line:label/symbol",
        "file/line:label/numeric", "file/line:directive", "file/final-newline", "file/starts-with-blank", "file/mem:bid", "file/tail:cmt#"]
 )
@@ -57,7 +58,7 @@ def floors(tier):
     lines, files = SIZES[tier]
     f = {
         "evaluations": (lines + files) // 2,
-        "distinct_nontrivial": {"quick": 4000, "thorough": 60000}[tier],
+        "distinct_nontrivial": {"quick": 6000, "thorough": 80000}[tier],
         "monitor:parse_line": lines // 2,
         "monitor:parse_file": files // 2,
         "file-lines-judged": files * 6,
